@@ -213,7 +213,8 @@ lzma_filter_encoder_is_supported(lzma_vli id)
 extern LZMA_API(lzma_ret)
 lzma_filters_update(lzma_stream *strm, const lzma_filter *filters)
 {
-	if (strm->internal->next.update == NULL)
+	if (strm == NULL || strm->internal == NULL
+			|| strm->internal->next.update == NULL)
 		return LZMA_PROG_ERROR;
 
 	// Validate the filter chain.
